@@ -51,14 +51,15 @@ class Plain:
             for row in self.g:
                 row[s:s] = [d] * n
         elif k == "DR":
+            # a plain grid: only rows that exist can go (a count of zero removes nothing, an over-long count is cut short)
             _, _, n, s = op
-            s = self.nr - n if s is None else s
-            del self.g[s:s + n]
+            s = max(self.nr - n, 0) if s is None else s
+            del self.g[s:s + max(n, 0)]
         elif k == "DC":
             _, _, n, s = op
-            s = self.nc - n if s is None else s
+            s = max(self.nc - n, 0) if s is None else s
             for row in self.g:
-                del row[s:s + n]
+                del row[s:s + max(n, 0)]
 
 
 def grid_of_dump(d: str):
@@ -67,7 +68,7 @@ def grid_of_dump(d: str):
     vals, pos_ok = [], True
     for ri, row in enumerate(rows.split(";") if rows else []):
         rv = []
-        for ci, cell in enumerate(row.split("/")):
+        for ci, cell in enumerate(row.split("/") if row else []):
             r, c, v, _, _ = cell.split(".")
             if (int(r), int(c)) != (ri, ci):
                 pos_ok = False
@@ -258,13 +259,17 @@ def random_history(rng, length, ntables=1, with_save=True, late_tables=False):
         elif k in ("AR", "AC"):
             ext = nr if k == "AR" else nc
             val += 1
-            op = (k, t, rng.choice([1, 1, 2, 3]), rng.choice([None, 0, ext - 1, rng.randrange(ext)]), rng.choice([None, None, val]))
+            op = (k, t, rng.choice([1, 1, 2, 3, 0]), rng.choice([None, 0, ext - 1, rng.randrange(ext)]), rng.choice([None, None, val]))
         elif k in ("DR", "DC"):
             ext = nr if k == "DR" else nc
             if ext < 2:
                 continue
             n = rng.randrange(1, ext)
+            if rng.random() < 0.12:
+                n = 0         # "delete nothing" is an edit too
             s = rng.choice([None, rng.randrange(0, ext - n + 1)])
+            if n == 0 and s is not None:
+                s = min(s, ext - 1)
             op = (k, t, n, s)
         else:
             ops.append(("RO", t))
@@ -314,6 +319,10 @@ def run(ctx: Ctx) -> int:
     # a table added after rows / columns of the sheet's last table were deleted or inserted (no save in between)
     for pre in ([("DR", 0, 1, None)], [("DR", 0, 2, 1)], [("DC", 0, 1, 0)], [("AR", 0, 2, 0, None)], [("DR", 0, 1, 0), ("AR", 0, 1, None, 5)]):
         rnd.append(gridlib.with_dumps([("N", 5, 3), ("W", 0, 4, 2, 11)] + pre + [("N", 2, 2), ("W", 1, 1, 1, 13), ("N", 3, 1)], 3) + [("RO", 0), ("RO", 1), ("RO", 2)])
+    # counts of zero: nothing is inserted, nothing is deleted
+    for zero in ([("DR", 0, 0, None)], [("DC", 0, 0, None)], [("DR", 0, 0, 1)], [("DC", 0, 0, 2)], [("AR", 0, 0, None, 5)], [("AC", 0, 0, 1, 6)],
+                 [("DR", 0, 0, None), ("DC", 0, 0, None), ("W", 0, 1, 1, 8)]):
+        rnd.append(gridlib.with_dumps([("N", 4, 3), ("W", 0, 3, 2, 11), ("W", 0, 0, 0, 12)] + zero, 1) + [("RO", 0)])
     # tables whose row count sits on / next to the 256-row tile size, saved and reopened
     for h in ([("N", 256, 2), ("W", 0, 255, 1, 5), ("W", 0, 0, 0, 6), ("RO", 0)],
               [("N", 255, 1), ("AR", 0, 1, None, 7), ("W", 0, 3, 0, 8), ("RO", 0)],
@@ -329,6 +338,12 @@ def run(ctx: Ctx) -> int:
     rnd.append(gridlib.with_dumps([("N", 2, 2), ("N", 3, 3), ("W", 0, 0, 0, 1), ("W", 1, 2, 2, 2), ("RN", 0, "Archive"), ("RN", 1, "Table 1"),
                                    ("W", 1, 0, 0, 4), ("W", 0, 1, 1, 5), ("RN", 0, "Table 2"), ("W", 0, 3, 0, 8), ("W", 1, 0, 3, 10)], 2)
                + [("RO", 0), ("RO", 1)])
+    # names that differ only in case (reachable through renames): each table is still addressed by exactly its own name
+    rnd.append(gridlib.with_dumps([("N", 2, 2), ("N", 3, 3), ("RN", 0, "Totals"), ("RN", 1, "TOTALS"), ("W", 1, 0, 0, 4), ("W", 0, 1, 1, 5),
+                                   ("W", 1, 2, 2, 8), ("AR", 1, 1, None, None), ("RN", 0, "totals"), ("W", 0, 2, 0, 10), ("W", 1, 0, 1, 11)], 2)
+               + [("RO", 0), ("RO", 1)])
+    rnd.append(gridlib.with_dumps([("N", 2, 2), ("N", 2, 2), ("N", 2, 2), ("RN", 2, "data"), ("RN", 1, "Data"), ("RN", 0, "DATA"), ("W", 2, 0, 0, 13),
+                                   ("W", 1, 1, 1, 14), ("W", 0, 0, 1, 16), ("DC", 2, 1, 0)], 3) + [("RO", 0), ("RO", 1), ("RO", 2)])
     for _ in range(4 if ctx.quick else 40):
         h = [("N", 2, 2), ("N", 2, 3), ("N", 3, 2)]
         names = ["Table 1", "Table 2", "Table 3"]
@@ -359,6 +374,18 @@ def run(ctx: Ctx) -> int:
             res = [(h, None, gridlib.run_impl(ctx.tmp, f"{name}{i}", h)) for i, h in enumerate(hs)]
         for h, _, iouts in res:
             oracle_history(ctx, name, h, iouts)
+    # deletion counts longer than what is left from the start index (implementation only: the model's domain is
+    # "within the remaining extent"): a plain grid loses the rows/columns that exist, and dimensions say so
+    over = []
+    for pre in ([("DR", 0, 3, 2)], [("DC", 0, 5, 1)], [("DR", 0, 3, 2), ("W", 0, 0, 0, 5), ("AR", 0, 1, None, None)], [("DC", 0, 2, 2), ("AC", 0, 1, 0, 7)],
+                [("DR", 0, 2, 3), ("DR", 0, 1, None)]):
+        over.append(gridlib.with_dumps([("N", 4, 3), ("W", 0, 3, 2, 11), ("W", 0, 0, 0, 12)] + pre, 1) + [("RO", 0)])
+    for i, h in enumerate(over):
+        oracle_history(ctx, "over-long-deletions", h, gridlib.run_impl(ctx.tmp, f"over{i}", h))
+    ctx.dist("over_long_deletion_histories", len(over))
+    # rows / columns added with a default value - falsy values are values too (shared with C01)
+    from . import c01
+    c01.default_fills(ctx, [1, "x", 2.5, 7], rng)
     fixture_edit_oracle(ctx, ["test-pivot.numbers", "test-1.numbers", "issue-73.numbers", "test-7.numbers", "issue-43.numbers"] if ctx.quick
                         else sorted(p.name for p in (common.REPO / "tests" / "data").glob("*.numbers")))
     # two documents interleaved: run the ops of two histories alternately on two open documents
